@@ -1208,10 +1208,24 @@ MUTANTS = [
                    r"            try:\n                ctx\.in_document = "
                    r"msgpack\.unpackb\(b''\.join\(ctx\.in_string\)\)\n"
                    r"            except ValueError as e:\n"
-                   r"                raise MessagePackDecodeError\(' '\.join"
-                   r"\(e\.args\)\)",
+                   r"                raise MessagePackDecodeError\(str\(e\)\)",
                    "            ctx.in_document = msgpack.unpackb(b''.join("
                    "ctx.in_string))", regex=True), 'unpackb'),
+    Mutant('msgpack-error-args-joined', 'R2', 'fire', _M,
+           in_func('MessagePackDocument.create_in_document',
+                   "raise MessagePackDecodeError(str(e))",
+                   "raise MessagePackDecodeError(' '.join(e.args))"),
+           'TypeError'),
+    Mutant('msgpackrpc-error-args-joined', 'R2', 'fire', _M,
+           in_func('MessagePackRpc.create_in_document',
+                   "raise MessagePackDecodeError(str(e))",
+                   "raise MessagePackDecodeError(''.join(e.args))"),
+           'TypeError'),
+    Mutant('msgpack-error-args-mapped', 'R2', 'benign', _M,
+           in_func('MessagePackRpc.create_in_document',
+                   "raise MessagePackDecodeError(str(e))",
+                   "raise MessagePackDecodeError(' '.join(str(a) for a in "
+                   "e.args))"), None),
     Mutant('syntax-error-server-code', 'R2', 'fire',
            'spyne/protocol/xml.py',
            in_func('XmlDocument.create_in_document',
